@@ -13,7 +13,8 @@
      alternation; groups ( ) and (?: ); bracket classes with ranges, negation, escapes;
      `^` only as the first token (optionally before/after a leading (?i)), `$` only as the
      last token, and neither combined with a top-level alternation (where they would bind
-     to one branch only); a leading (?i) = ASCII case-insensitive for the whole pattern.
+     to one branch only); a leading flag group (?i) (?s) (?is) (?si): i = ASCII
+     case-insensitive, s = `.` also matches U+000A, both for the whole pattern.
    Not modelled: counted repetition {m,n}, other flags, named groups, nested/posix classes,
    class set operations, \b, \p{..}, \x.., Unicode case folding. *)
 From Coq Require Import List NArith Bool Lia String.
@@ -35,6 +36,7 @@ Definition classify (c : N) : kind :=
   else KLit.
 
 Definition lit (ci : bool) (c : N) : re := if ci then ChrI c else Chr c.
+Definition dot (ds : bool) : re := if ds then AnyNL else Any.     (* ds = flag s *)
 
 Definition digit_rs : list (N * N) := [(48, 57)].
 Definition word_rs : list (N * N) := [(48, 57); (65, 90); (95, 95); (97, 122)].
@@ -108,7 +110,7 @@ Definition frame := (list re * list re)%type.
 Definition cstate := (bool * bool * list (N * N))%type.   (* negated, at first position, ranges (reversed) *)
 
 (* result: body, anchored_end, has a top-level alternation *)
-Fixpoint go (ci : bool) (stk : list frame) (alts sq : list re) (q : bool) (cls : option cstate)
+Fixpoint go (ci ds : bool) (stk : list frame) (alts sq : list re) (q : bool) (cls : option cstate)
             (inp : str) {struct inp} : option (re * bool * bool) :=
   match inp with
   | [] =>
@@ -120,17 +122,17 @@ Fixpoint go (ci : bool) (stk : list frame) (alts sq : list re) (q : bool) (cls :
       match cls with
       | Some (neg, first, rs) =>
           match class_decide first c rest with
-          | CDClose => go ci stk alts (Sym (mk_class ci neg (rev rs)) :: sq) false None rest
+          | CDClose => go ci ds stk alts (Sym (mk_class ci neg (rev rs)) :: sq) false None rest
           | CDFail => None
-          | CDLit d => go ci stk alts sq q (Some (neg, false, (d, d) :: rs)) rest
+          | CDLit d => go ci ds stk alts sq q (Some (neg, false, (d, d) :: rs)) rest
           | CDRange lo hi =>
               match rest with
-              | _ :: _ :: rest' => go ci stk alts sq q (Some (neg, false, (lo, hi) :: rs)) rest'
+              | _ :: _ :: rest' => go ci ds stk alts sq q (Some (neg, false, (lo, hi) :: rs)) rest'
               | _ => None
               end
           | CDEsc rs' =>
               match rest with
-              | _ :: rest' => go ci stk alts sq q (Some (neg, false, rev rs' ++ rs)) rest'
+              | _ :: rest' => go ci ds stk alts sq q (Some (neg, false, rev rs' ++ rs)) rest'
               | [] => None
               end
           end
@@ -141,19 +143,19 @@ Fixpoint go (ci : bool) (stk : list frame) (alts sq : list re) (q : bool) (cls :
               | [] => None
               | e :: rest' =>
                   match escape_atom ci e with
-                  | Some a => go ci stk alts (a :: sq) false None rest'
+                  | Some a => go ci ds stk alts (a :: sq) false None rest'
                   | None => None
                   end
               end
-          | KDot => go ci stk alts (Any :: sq) false None rest
+          | KDot => go ci ds stk alts (dot ds :: sq) false None rest
           | KStar =>
-              match sq with [] => None | a :: sq' => go ci stk alts (Star a :: sq') true None rest end
+              match sq with [] => None | a :: sq' => go ci ds stk alts (Star a :: sq') true None rest end
           | KPlus =>
-              match sq with [] => None | a :: sq' => go ci stk alts (Plus a :: sq') true None rest end
+              match sq with [] => None | a :: sq' => go ci ds stk alts (Plus a :: sq') true None rest end
           | KQuest =>
-              if q then go ci stk alts sq false None rest      (* lazy marker *)
-              else match sq with [] => None | a :: sq' => go ci stk alts (Opt a :: sq') true None rest end
-          | KBar => go ci stk (close_seq sq :: alts) [] false None rest
+              if q then go ci ds stk alts sq false None rest      (* lazy marker *)
+              else match sq with [] => None | a :: sq' => go ci ds stk alts (Opt a :: sq') true None rest end
+          | KBar => go ci ds stk (close_seq sq :: alts) [] false None rest
           | KLParen =>
               match rest with
               | [] => None
@@ -162,21 +164,21 @@ Fixpoint go (ci : bool) (stk : list frame) (alts sq : list re) (q : bool) (cls :
                     match rest1 with
                     | [] => None
                     | c2 :: rest2 =>
-                        if c2 =? 58 then go ci ((alts, sq) :: stk) [] [] false None rest2 else None
+                        if c2 =? 58 then go ci ds ((alts, sq) :: stk) [] [] false None rest2 else None
                     end
-                  else go ci ((alts, sq) :: stk) [] [] false None rest
+                  else go ci ds ((alts, sq) :: stk) [] [] false None rest
               end
           | KRParen =>
               match stk with
               | [] => None
-              | (alts0, sq0) :: stk' => go ci stk' alts0 (close alts sq :: sq0) false None rest
+              | (alts0, sq0) :: stk' => go ci ds stk' alts0 (close alts sq :: sq0) false None rest
               end
           | KLBrack =>
               match rest with
               | [] => None
               | c1 :: rest1 =>
-                  if c1 =? 94 then go ci stk alts sq false (Some (true, true, [])) rest1
-                  else go ci stk alts sq false (Some (false, true, [])) rest
+                  if c1 =? 94 then go ci ds stk alts sq false (Some (true, true, [])) rest1
+                  else go ci ds stk alts sq false (Some (false, true, [])) rest
               end
           | KLBrace => None
           | KCaret => None
@@ -185,25 +187,37 @@ Fixpoint go (ci : bool) (stk : list frame) (alts sq : list re) (q : bool) (cls :
               | [], [] => Some (close alts sq, true, negb (is_nil alts))
               | _, _ => None
               end
-          | KLit => go ci stk alts (lit ci c :: sq) false None rest
+          | KLit => go ci ds stk alts (lit ci c :: sq) false None rest
           end
       end
   end.
 
-Definition strip_flag (x : str) : bool * str :=
+(* leading flag group: (?i) (?s) (?is) (?si); result ((i, s), rest).  Repeated flags are a
+   Rust error and other flags are outside the subset: both fall through to `go`, which
+   answers None on `(?` not followed by `:`. *)
+Definition strip_flag (x : str) : (bool * bool) * str :=
   match x with
   | a :: b :: c :: d :: r =>
-      if (a =? 40) && (b =? 63) && (c =? 105) && (d =? 41) then (true, r) else (false, x)
-  | _ => (false, x)
+      if (a =? 40) && (b =? 63) then
+        if (c =? 105) && (d =? 41) then ((true, false), r)
+        else if (c =? 115) && (d =? 41) then ((false, true), r)
+        else match r with
+             | e :: r' =>
+                 if (e =? 41) && (((c =? 105) && (d =? 115)) || ((c =? 115) && (d =? 105)))
+                 then ((true, true), r') else ((false, false), x)
+             | [] => ((false, false), x)
+             end
+      else ((false, false), x)
+  | _ => ((false, false), x)
   end.
 Definition strip_caret (x : str) : bool * str :=
   match x with a :: r => if a =? 94 then (true, r) else (false, x) | [] => (false, x) end.
 
 Definition parse_regex (p : str) : option rx :=
-  let '(ci1, p1) := strip_flag p in
+  let '(f1, p1) := strip_flag p in
   let '(as_, p2) := strip_caret p1 in
-  let '(ci2, p3) := if ci1 then (false, p2) else strip_flag p2 in
-  match go (ci1 || ci2) [] [] [] false None p3 with
+  let '(f2, p3) := if fst f1 || snd f1 then ((false, false), p2) else strip_flag p2 in
+  match go (fst f1 || fst f2) (snd f1 || snd f2) [] [] [] false None p3 with
   | Some (b, ae, topalt) => if (as_ || ae) && topalt then None else Some (mkrx as_ ae b)
   | None => None
   end.
@@ -257,29 +271,30 @@ Proof.
   intros. unfold classify. rewrite !(proj2 (N.eqb_neq c _)) by assumption. reflexivity.
 Qed.
 
-Lemma go_lit ci stk alts sq q c rest :
-  classify c = KLit -> go ci stk alts sq q None (c :: rest) = go ci stk alts (lit ci c :: sq) false None rest.
+Lemma go_lit ci ds stk alts sq q c rest :
+  classify c = KLit ->
+  go ci ds stk alts sq q None (c :: rest) = go ci ds stk alts (lit ci c :: sq) false None rest.
 Proof. intros K. cbn [go]. rewrite K. reflexivity. Qed.
 
-Lemma go_esc ci stk alts sq q e rest :
+Lemma go_esc ci ds stk alts sq q e rest :
   is_meta e = true ->
-  go ci stk alts sq q None (92 :: e :: rest) = go ci stk alts (lit ci e :: sq) false None rest.
+  go ci ds stk alts sq q None (92 :: e :: rest) = go ci ds stk alts (lit ci e :: sq) false None rest.
 Proof.
-  intros M. change (go ci stk alts sq q None (92 :: e :: rest))
+  intros M. change (go ci ds stk alts sq q None (92 :: e :: rest))
     with (match escape_atom ci e with
-          | Some a => go ci stk alts (a :: sq) false None rest | None => None end).
+          | Some a => go ci ds stk alts (a :: sq) false None rest | None => None end).
   unfold escape_atom. rewrite M. reflexivity.
 Qed.
 
-Lemma go_dot ci stk alts sq q rest :
-  go ci stk alts sq q None (46 :: rest) = go ci stk alts (Any :: sq) false None rest.
+Lemma go_dot ci ds stk alts sq q rest :
+  go ci ds stk alts sq q None (46 :: rest) = go ci ds stk alts (dot ds :: sq) false None rest.
 Proof. reflexivity. Qed.
 
-Lemma go_dot_star ci stk alts sq q rest :
-  go ci stk alts sq q None (46 :: 42 :: rest) = go ci stk alts (Star Any :: sq) true None rest.
+Lemma go_dot_star ci ds stk alts sq q rest :
+  go ci ds stk alts sq q None (46 :: 42 :: rest) = go ci ds stk alts (Star (dot ds) :: sq) true None rest.
 Proof. reflexivity. Qed.
 
-Lemma go_dollar_end ci sq q : go ci [] [] sq q None [36] = Some (close_seq sq, true, false).
+Lemma go_dollar_end ci ds sq q : go ci ds [] [] sq q None [36] = Some (close_seq sq, true, false).
 Proof. reflexivity. Qed.
 
 Lemma close_seq_rev l : close_seq (rev l) = fold_right Seq Eps l.
@@ -288,7 +303,16 @@ Proof. unfold close_seq. rewrite <- fold_left_rev_right, rev_involutive. reflexi
 (* `^(?i)` X  is parsed as: anchored start, case-insensitive, body X *)
 Lemma parse_regex_anchored_ci (x : str) :
   parse_regex (94 :: 40 :: 63 :: 105 :: 41 :: x) =
-  match go true [] [] [] false None x with
+  match go true false [] [] [] false None x with
+  | Some (b, ae, topalt) => if topalt then None else Some (mkrx true ae b)
+  | None => None
+  end.
+Proof. reflexivity. Qed.
+
+(* `^(?is)` X  is parsed as: anchored start, case-insensitive, dot matches newline, body X *)
+Lemma parse_regex_anchored_cis (x : str) :
+  parse_regex (94 :: 40 :: 63 :: 105 :: 115 :: 41 :: x) =
+  match go true true [] [] [] false None x with
   | Some (b, ae, topalt) => if topalt then None else Some (mkrx true ae b)
   | None => None
   end.
@@ -347,6 +371,22 @@ Example ex25 : is_match (s "") (s "anything") = Some true.
 Proof. vm_compute. reflexivity. Qed.
 Example ex26 : parse_regex (s "^(?i)a.*$") =
                Some (mkrx true true (Seq (ChrI 97) (Seq (Star Any) Eps))).
+Proof. vm_compute. reflexivity. Qed.
+
+Example ex27 : is_match (s "^(?is)a.b$") [97; 10; 66] = Some true.            (* s: . matches newline *)
+Proof. vm_compute. reflexivity. Qed.
+Example ex28 : is_match (s "^(?s)a.b$") [97; 10; 66] = Some false.            (* s alone is case-sensitive *)
+Proof. vm_compute. reflexivity. Qed.
+Example ex29 : is_match (s "^(?s)a.b$") [97; 10; 98] = Some true.
+Proof. vm_compute. reflexivity. Qed.
+Example ex30 : is_match (s "(?si)^a.*b$") [65; 10; 10; 98] = Some true.
+Proof. vm_compute. reflexivity. Qed.
+Example ex31 : is_match (s "^(?i)a.b$") [97; 10; 98] = Some false.            (* i alone: . is not newline *)
+Proof. vm_compute. reflexivity. Qed.
+Example ex32 : is_match (s "(?ii)a") (s "a") = None.                          (* Rust: duplicate flag *)
+Proof. vm_compute. reflexivity. Qed.
+Example ex33 : parse_regex (s "^(?is)a.*\+$") =
+               Some (mkrx true true (Seq (ChrI 97) (Seq (Star AnyNL) (Seq (ChrI 43) Eps)))).
 Proof. vm_compute. reflexivity. Qed.
 
 Print Assumptions rx_re_ok.
